@@ -34,6 +34,31 @@ def child_events(F, p: Path, selft, stt) -> List[Tuple[str, Optional[int], Event
     return out
 
 
+def _truth_test(c, v):
+    """Reduce an assumption (condition, value) to (tested term, truth): `bool(x) is True`, `(x is True) is False`, `not x`,
+    `bool(x) == False` ... are all tests of the truth value of x."""
+    c = freeze(c)
+    for _ in range(8):
+        if isinstance(c, tuple) and c[:1] == ('not',):
+            c, v = c[1], not v
+        elif isinstance(c, tuple) and c[:1] == ('cmp',) and c[1] in ('is', '==', 'is not', '!=') and \
+                any(isinstance(x, tuple) and x[:1] == ('const',) and isinstance(x[1], bool) for x in c[2:4]):
+            k, other = (c[3], c[2]) if (isinstance(c[3], tuple) and c[3][:1] == ('const',) and isinstance(c[3][1], bool)) else (c[2], c[3])
+            inner_boolean = isinstance(other, tuple) and (other[:1] in (('cmp',), ('not',)) or (
+                other[:1] == ('pcall',) and other[1] == 'bool') or (other[:1] == ('call',) and other[2] == ('ref', 'builtin', 'bool')))
+            if not inner_boolean:
+                break               # `x is True` on an arbitrary value is not a truth test
+            same = (k[1] is True) == (c[1] in ('is', '=='))
+            c, v = other, (v if same else not v)
+        elif isinstance(c, tuple) and c[:1] == ('pcall',) and c[1] == 'bool' and len(c[2]) == 1:
+            c = c[2][0]
+        elif isinstance(c, tuple) and c[:1] == ('call',) and c[2] == ('ref', 'builtin', 'bool') and len(c[3]) == 1 and not c[4]:
+            c = c[3][0]
+        else:
+            break
+    return c, v
+
+
 def roles(F) -> Dict[str, Any]:
     """Lazy constructs, identified through the grammar (not by class name)."""
     g = C.grammar(F)
@@ -157,6 +182,18 @@ def check(chk: Check) -> None:
                             seq.append((fld, 1))
                             continue
                         seq.append((fld, idx))
+                    # a list field the path found empty (`if not self.xs: return ...`, `len(self.xs) == 0`): nothing to evaluate -
+                    # an empty traversal, as if the loop had been entered
+                    for f in opfields:
+                        if kinds.get(f) in ('oplist', 'pairlist') and not any(ff == f for ff, _ in seq):
+                            at = ('attr', selft, f)
+                            ln = ('pcall', 'len', (at,))
+                            empty = any((freeze(c_) == at and v_ is False) or
+                                        (freeze(c_) in (('cmp', '==', ln, ('const', 0)), ('cmp', '==', ('const', 0), ln)) and v_ is True) or
+                                        (freeze(c_) in (('cmp', '>', ln, ('const', 0)), ('cmp', '!=', ln, ('const', 0))) and v_ is False)
+                                        for c_, v_, _x in p.assumptions)
+                            if empty:
+                                seq += [(f, 0), (f, 1)] if kinds[f] == 'pairlist' else [(f, None)]
                     seqs.add(tuple(seq))
                     flds = [f for f, _ in seq]
                     for f in opfields:
@@ -250,11 +287,15 @@ def _check_lazy(F, word, role, paths, selft, stt, problems) -> None:
         left = freeze(ce[0][2].result)
         truth = None
         for c, v, _ in p.assumptions:
+            c, v = _truth_test(c, v)
             if c == left:
                 truth = v
         n2 = flds.count(f2)
         ret = p.outcome[1]
         if truth is None:
+            import os
+            if os.environ.get('SQ_DEBUG'):
+                print('DEBUG left', left, [(freeze(c), v) for c, v, _ in p.assumptions])
             problems.append('`%s`: a path returns without ever testing the left operand (right operand evaluated %d time(s))' % (word, n2))
             continue
         need_right = truth if word == 'and' else not truth
@@ -290,6 +331,7 @@ def _check_cond(F, role, paths, selft, stt, problems) -> None:
         cv = freeze(ce[0][2].result)
         truth = None
         for c, v, _ in p.assumptions:
+            c, v = _truth_test(c, v)
             if c == cv:
                 truth = v
         na, nb = flds.count(fa), flds.count(fb)
